@@ -426,6 +426,11 @@ def main(argv) -> int:
         print('tier must be quick or thorough', file=sys.stderr)
         return 2
     ctx = Ctx(prop, tier, seed, known, t0=t0)
+    rdir = os.path.join(ROOT, 'replays', prop)
+    if os.path.isdir(rdir):  # replay files belong to one run
+        for fn in os.listdir(rdir):
+            if fn.endswith('.json'):
+                os.remove(os.path.join(rdir, fn))
     try:
         mod.run(ctx)
     except HarnessError as ex:
@@ -441,7 +446,7 @@ def main(argv) -> int:
     violations = 0
     for sig, f in sorted(ctx.findings.items()):
         path = write_replay(prop, f)
-        print(f'  finding {sig}: {f["detail"] if isinstance(f["detail"], str) else jdump(f["detail"])}'[:1800])
+        print(f'  finding {sig}: {f["detail"] if isinstance(f["detail"], str) else jdump(f["detail"])}'[:400].replace('\n', ' '))
         print(f'VIOLATION property={prop} replay={path}')
         violations += 1
     write_evidence(ctx, mod, wall, violations)
